@@ -25,6 +25,9 @@ const (
 
 // Prog is the loaded target program.
 type Prog struct {
+	errG     *ssa.Global
+	errGDone bool
+
 	Dir   string
 	Fset  *token.FileSet
 	Pkgs  []*packages.Package
